@@ -1029,6 +1029,9 @@ def run_parts(run, parts, only=None, pendings=1, kinds=None, mandatory=True):
         finish_rulebuilder(run, helper, res, mandatory)
         res = rule_parse_obligations(run, prog, run.tier, only=only)
         finish_rulebuilder(run, helper, res, mandatory, text_of=rule_parse_text)
+    if "serializer" in parts:
+        res = serializer_obligations(run, prog, run.tier, only=only)
+        finish_serializer(run, helper, res, mandatory)
     if "conversions" in parts:
         res = conversion_obligations(run, prog, run.tier, only=only)
         finish_convert(run, helper, res, mandatory)
@@ -1989,3 +1992,183 @@ def crosscheck_operator_functions(run, fns):
     run.extra.setdefault("mir", {})["operator_function_per_node"] = {k: v for k, v in sorted(fns.items())}
     if bad:
         run.inconc("operator-function-crosscheck", "; ".join(bad)[:400], mandatory=True)
+
+
+# ================================================================================================ C13: container collectors of the serializer
+class SerWorld(Env):
+    """serde's protocol driven by the harness; element / key types are oracles: serializing element i gives an arbitrary Value or an
+    arbitrary error, serializing key i (with the string-only key serializer) an arbitrary string or an error."""
+
+    def override(self, ex, callee, args):
+        m = re.match(r"<(.+) as serde::Serialize>::serialize::<(.+)>$", callee)
+        if m:
+            who, ser = m.group(1), m.group(2)
+            v = std.deref_all(ex, args[0])
+            if isinstance(v, Obj) and v.kind in ("elem", "key"):
+                i = v.key
+                if v.kind == "elem":
+                    if ex.choose([("ok", z3.Bool(f"el{i}.ok")), ("err", z3.Not(z3.Bool(f"el{i}.ok")))], "element") == "ok":
+                        return std.ok(SymVal(z3.Const(f"el{i}.val", VAL)))
+                    return std.err(Opq("Error", z3.Const(f"el{i}.err", ERR)))
+                if ex.choose([("ok", z3.Bool(f"key{i}.ok")), ("err", z3.Not(z3.Bool(f"key{i}.ok")))], "key") == "ok":
+                    return std.ok(Str(z3.String(f"key{i}.text")))
+                return std.err(Opq("Error", z3.Const(f"key{i}.err", ERR)))
+            if isinstance(v, Str):
+                ex.prog.stats.setdefault("std_models", set()).add("serde: <str as Serialize>::serialize = serializer.serialize_str(text)")
+                return ex.call(None, f"<{ser} as serde::Serializer>::serialize_str", [args[1], v])
+            raise Unsupported(f"Serialize of {v}")
+        m = re.match(r"(?:<(.+) as )?serde::ser::SerializeMap>?::serialize_entry", callee)
+        if m:
+            ex.prog.stats.setdefault("std_models", set()).add("serde: SerializeMap::serialize_entry (default method) = serialize_key then serialize_value")
+            ty = "value::ser::SerializeMapValue"
+            r = ex.call(None, f"<{ty} as serde::ser::SerializeMap>::serialize_key::<K>", [args[0], args[1]])
+            if r.variant == "Err":
+                return r
+            return ex.call(None, f"<{ty} as serde::ser::SerializeMap>::serialize_value::<V>", [args[0], args[2]])
+        return super().override(ex, callee, args)
+
+
+def serializer_obligations(run, prog, tier, only=None):
+    out = []
+    ns = (0, 1, 2, 3) if tier == "quick" else (0, 1, 2, 3, 4)
+    world = SerWorld()
+    VS = "value::ser::ValueSerializer"
+    okb = lambda i: z3.Bool(f"el{i}.ok")                      # noqa: E731
+    val = lambda i: z3.Const(f"el{i}.val", VAL)                # noqa: E731
+    er = lambda i: z3.Const(f"el{i}.err", ERR)                 # noqa: E731
+    kok = lambda i: z3.Bool(f"key{i}.ok")                      # noqa: E731
+    ktx = lambda i: z3.String(f"key{i}.text")                  # noqa: E731
+    ker = lambda i: z3.Const(f"key{i}.err", ERR)               # noqa: E731
+    vname = z3.String("variant.name")
+
+    def unwrap(r):
+        if not (isinstance(r, Agg) and r.ty == "Result" and r.variant == "Ok"):
+            raise Unsupported(f"collector constructor failed: {r}")
+        return Cell(r.fields[0], name="collector")
+
+    kinds = {
+        "seq": ("serialize_seq", lambda: [std.some(IntV(0, "usize"))], "value::ser::SerializeVecValue", "serde::ser::SerializeSeq", "serialize_element", "list"),
+        "tuple": ("serialize_tuple", lambda: [IntV(0, "usize")], "value::ser::SerializeVecValue", "serde::ser::SerializeTuple", "serialize_element", "list"),
+        "tuple_struct": ("serialize_tuple_struct", lambda: [Str("T"), IntV(0, "usize")], "value::ser::SerializeVecValue", "serde::ser::SerializeTupleStruct", "serialize_field", "list"),
+        "tuple_variant": ("serialize_tuple_variant", lambda: [Str("E"), IntV(0, "u32"), Str(vname), IntV(0, "usize")], "value::ser::SerializeTupleVariantValue",
+                          "serde::ser::SerializeTupleVariant", "serialize_field", "tagged-list"),
+        "map": ("serialize_map", lambda: [std.NONE()], "value::ser::SerializeMapValue", "serde::ser::SerializeMap", None, "map"),
+        "struct": ("serialize_struct", lambda: [Str("S"), IntV(0, "usize")], "value::ser::SerializeMapValue", "serde::ser::SerializeStruct", "serialize_field", "fields"),
+        "struct_variant": ("serialize_struct_variant", lambda: [Str("E"), IntV(0, "u32"), Str(vname), IntV(0, "usize")], "value::ser::SerializeStructVariantValue",
+                           "serde::ser::SerializeStructVariant", "serialize_field", "tagged-fields"),
+    }
+    for kname, (ctor, ctor_args, cty, ctrait, meth, shape) in kinds.items():
+        for n in ns:
+            oid = f"serialize_{kname}_{n}"
+            if only and only not in oid:
+                continue
+
+            def body(ex, ctor=ctor, ctor_args=ctor_args, cty=cty, ctrait=ctrait, meth=meth, shape=shape, n=n):
+                if shape in ("map", "fields", "tagged-fields") and n > 1:
+                    ex.assume(z3.Distinct(*[ktx(i) for i in range(n)]))
+                c = unwrap(ex.call(None, f"<{VS} as serde::Serializer>::{ctor}", [Agg("ValueSerializer")] + ctor_args()))
+                cref = Ref(c, (), True)
+                for i in range(n):
+                    el = Ref(Cell(Obj("elem", i), ro=True, name=f"elem{i}"))
+                    if shape == "map":
+                        r = ex.call(None, f"<{cty} as {ctrait}>::serialize_key::<OracleK>", [cref, Ref(Cell(Obj("key", i), ro=True, name=f"key{i}"))])
+                        if r.variant == "Err":
+                            return r
+                        r = ex.call(None, f"<{cty} as {ctrait}>::serialize_value::<OracleT>", [cref, el])
+                    elif shape in ("fields", "tagged-fields"):
+                        r = ex.call(None, f"<{cty} as {ctrait}>::{meth}::<OracleT>", [cref, Str(ktx(i)), el])
+                    else:
+                        r = ex.call(None, f"<{cty} as {ctrait}>::{meth}::<OracleT>", [cref, el])
+                    if not (isinstance(r, Agg) and r.ty == "Result"):
+                        raise Unsupported(f"collector step returned {r}")
+                    if r.variant == "Err":
+                        return r
+                return ex.call(None, f"<{cty} as {ctrait}>::end", [c.v])
+            cases = []
+            prev = []
+            for i in range(n):
+                if shape == "map":
+                    cases.append(Case(f"key{i}-fails", z3.And(prev + [z3.Not(kok(i))]), None, err_opq(ker(i))))
+                    prev = prev + [kok(i)]
+                cases.append(Case(f"element{i}-fails", z3.And(prev + [z3.Not(okb(i))]), None, err_opq(er(i))))
+                prev = prev + [okb(i)]
+            vals = [val(i) for i in range(n)]
+            pairs = [(ktx(i), val(i)) for i in range(n)]
+
+            def tagged(inner):
+                def f(ex, r):
+                    if isinstance(r, Agg) and r.ty == "Result" and r.variant == "Ok":
+                        v = r.fields[0]
+                        if isinstance(v, Agg) and v.ty == "Value" and v.variant == "Map" and isinstance(v.fields[0], MapV) and len(v.fields[0].layers) == 1:
+                            l = v.fields[0].layers[0]
+                            c = inner(ex, std.ok(l[2]))
+                            if c is False:
+                                return False
+                            return z3.And([l[1].t == vname] + ([c] if c is not True else []))
+                    return False
+                return f
+            good = {"list": ok_vec(vals), "tagged-list": tagged(ok_vec(vals)), "map": ok_map(pairs), "fields": ok_map(pairs), "tagged-fields": tagged(ok_map(pairs))}[shape]
+            cases.append(Case("all-serialize", z3.And(prev) if prev else z3.BoolVal(True), None, good))
+            d = check_paths(run, prog, world, oid, body, cases, "serializer-collector", meta={"container": kname, "elements": n})
+            out.append((d, {"kind": kname, "n": n, "shape": shape}))
+    return out
+
+
+def serializer_scenario(info, cex):
+    from .e3replay import Concretizer
+    C = Concretizer(cex["_model"])
+    n = info["n"]
+    els = [{"ok": i + 1} if C.boolean(z3.Bool(f"el{i}.ok")) else {"err": True} for i in range(n)]
+    keys_ok = [C.boolean(z3.Bool(f"key{i}.ok")) for i in range(n)] if info["shape"] == "map" else [True] * n
+    req = {"kind": info["kind"], "elems": els, "keys_ok": keys_ok}
+    # expectation under the model
+    exp = None
+    for i in range(n):
+        if info["shape"] == "map" and not keys_ok[i]:
+            exp = {"err": "key"}
+            break
+        if "err" in els[i]:
+            exp = {"err": "element"}
+            break
+    if exp is None:
+        vals = [{"t": "Int", "v": str(i + 1)} for i in range(n)]
+        names = ["a", "b", "c", "d"][:n]
+        if info["shape"] == "list":
+            exp = {"ok": {"t": "Vec", "v": vals}}
+        elif info["shape"] == "tagged-list":
+            exp = {"ok": {"t": "Map", "v": [["T", {"t": "Vec", "v": vals}]]}}
+        elif info["shape"] in ("map", "fields"):
+            exp = {"ok": {"t": "Map", "v": [[k, v] for k, v in zip(names, vals)]}}
+        else:
+            exp = {"ok": {"t": "Map", "v": [["S", {"t": "Map", "v": [[k, v] for k, v in zip(names, vals)]}]]}}
+    return req, exp
+
+
+def finish_serializer(run, helper, res, mandatory=True):
+    import json as _json
+    for d, info in res:
+        if d["verdict"] == "fail":
+            confirmed, notes, tried = 0, [], {}
+            for cex in d.get("cex", []):
+                if tried.get(cex["case"], 0) >= 4:
+                    continue
+                tried[cex["case"]] = tried.get(cex["case"], 0) + 1
+                req, exp = serializer_scenario(info, cex)
+                line = helper.call("serialize", [req])[0]
+                obs = _json.loads(line[3:]) if line.startswith("OK ") else {"panic": line}
+                if _json.dumps(obs, sort_keys=True) != _json.dumps(exp, sort_keys=True):
+                    confirmed += 1
+                    tried[cex["case"]] = 99
+                    run.finding(d["id"], cex["case"], f"{cex['why']}; natively: {_json.dumps(req)} gives {_json.dumps(obs)} but the specification gives {_json.dumps(exp)}",
+                                {"engine": "e3-serialize", "request": req, "expected": exp, "observed": obs})
+                else:
+                    notes.append(f"{cex['case']}: the solver's scenario behaves as specified natively")
+            d["replay_notes"] = notes
+            if not confirmed:
+                d["verdict"] = "inconclusive"
+                d["reason"] = "counterexample(s) did not reproduce natively: " + "; ".join(notes)[:300]
+        for c in d.get("cex", []):
+            c.pop("_model", None)
+            c.pop("_case", None)
+        if d["verdict"] == "inconclusive":
+            run.inconc(d["id"], d.get("reason", "no verdict"), mandatory=mandatory)
